@@ -118,9 +118,9 @@ HandleCC(c, val) ==
      THEN /\ out' = SetSlotOut(CHOOSE s \in Bound(c) : TRUE, Val8(val)) /\ Cardinality(Bound(c)) = 1 /\ UNCHANGED <<slot, reqs, asked>>
      ELSE Serve(c, FALSE, val)
   /\ UNCHANGED <<sub, nrpn>>
-\* NRPN assembly (controller numbers 99/98 select the parameter, 6/38 carry the value).  Generated only where the
-\* statement speaks: while the assembly is incomplete no slot may be waiting for a controller (the code would hand the
-\* half-assembled message to the learner), and a complete value has both halves equal (0 or 127: slot value 0 or 1).
+\* NRPN assembly (controller numbers 99/98 select the parameter, 6/38 carry the value).  A part of an unfinished
+\* sequence drives nothing and is nothing a waiting slot could learn: the controller is the NRPN, and it has arrived only
+\* when all four parts are there.  A complete value has both halves equal in the generated histories (slot value 0 or 1).
 NrpnAfter(type, val) == CASE type = 99 -> [nrpn EXCEPT !.parhi = val, !.valhi = NONE, !.vallo = NONE]
                           [] type = 98 -> [nrpn EXCEPT !.parlo = val, !.valhi = NONE, !.vallo = NONE]
                           [] type = 6  -> IF nrpn.parhi >= 0 /\ nrpn.parlo >= 0 THEN [nrpn EXCEPT !.valhi = val] ELSE nrpn
@@ -131,7 +131,7 @@ HandleNrpn(type, val) ==
   /\ Tick /\ step' = [op |-> "nrpn", type |-> type, val |-> val]
   /\ LET n2 == NrpnAfter(type, val) IN
      /\ nrpn' = n2
-     /\ (Complete(n2) /\ n2.valhi = n2.vallo) \/ (~ Complete(n2) /\ reqs = <<>>)
+     /\ Complete(n2) => n2.valhi = n2.vallo        \* (generated values: both halves equal, i.e. slot value 0 or 1)
      /\ IF ~ Complete(n2) THEN out' = <<>> /\ UNCHANGED <<slot, reqs, asked>>
         ELSE LET pid == n2.parhi * 128 + n2.parlo IN
              IF BoundN(pid) # {}
